@@ -3,24 +3,23 @@
 
 package utils
 
-import (
-	"sync/atomic"
-	"time"
-)
+import "sync/atomic"
 
-var verifClock atomic.Value // of func() time.Time
+var verifClock atomic.Value // of func() int64
 
-// SetVerifClock overrides the clock used for message ids (verification hook, build tag verif).
-func SetVerifClock(f func() time.Time) {
+// SetVerifClock overrides the clock (unix nanoseconds) used for message ids (verification hook,
+// build tag verif). Pass nil to restore the wall clock.
+func SetVerifClock(f func() int64) {
 	if f == nil {
-		f = time.Now
+		verifClock.Store((func() int64)(nil))
+		return
 	}
 	verifClock.Store(f)
 }
 
-func verifNow(t time.Time) time.Time {
-	if f, ok := verifClock.Load().(func() time.Time); ok && f != nil {
+func verifNanos(n int64) int64 {
+	if f, ok := verifClock.Load().(func() int64); ok && f != nil {
 		return f()
 	}
-	return t
+	return n
 }
